@@ -347,6 +347,12 @@ fn split_comment_token(token: Token) -> Vec<Token> {
     ret
 }
 
+/// Verification hook: exposes the private comment splitter to the /verif harness.
+#[cfg(veryl_verif)]
+pub fn verif_split_comment_token(token: Token) -> Vec<Token> {
+    split_comment_token(token)
+}
+
 impl TryFrom<&StartToken> for VerylToken {
     type Error = anyhow::Error;
 
